@@ -152,8 +152,17 @@ def readers(ctx, r, v, ref, hist, lines, expect, speclines, meta, errcls):
     ctx.tick('readers')
 
 
-def state(v):
-    i2l, l2i, stop = v.__reduce__()[2][:3]
+def core(v):
+    """(_index_to_label, _label_to_index, _stop) of the pickled state, found by TYPE (the two dicts in order, the last plain int):
+    an attribute added to the cdef class (a cache, a hint) must not blind the harness"""
+    st = v.__reduce__()[2]
+    ds = [x for x in st if isinstance(x, dict)]
+    ns = [x for x in st if isinstance(x, int) and not isinstance(x, bool)]
+    return ds[0], ds[1], ns[-1]
+
+
+def state(v, lab=lab):
+    i2l, l2i, stop = core(v)
     # a key of _index_to_label may be an alias object of the index (`idx = self._label_to_index.pop(old, old)` with an alias `old`)
     def ik(k):
         return int(k) if isinstance(k, (int, float, np.integer, np.floating)) and float(k).is_integer() else k
@@ -626,7 +635,23 @@ def object_cases(ctx, r, lines, expect, speclines, meta, cls=Variables, n_hist=N
     ctx.tick('object histories (whole alphabet)', n_hist)
 
 
-def odd_label_cases(ctx, r):
+def enc_f(o):
+    """the encoding `LabelF.enc` of lean/DimodModel/LabelF.lean, written independently: integers (and their aliases) and strings
+    stay, a non-integral number becomes ('#frac', numerator, denominator), a tuple ('#tup', *encoded elements)"""
+    import fractions
+    if isinstance(o, tuple):
+        return ('#tup',) + tuple(enc_f(x) for x in o)
+    if isinstance(o, str):
+        return o
+    q = o if isinstance(o, fractions.Fraction) else fractions.Fraction(int(o)) if isinstance(o, (bool, int, np.integer)) else fractions.Fraction(float(o))
+    return int(q) if q.denominator == 1 else ('#frac', q.numerator, q.denominator)
+
+
+def lab_f(o):
+    return lab(enc_f(o))
+
+
+def odd_label_cases(ctx, r, lines=None, expect=None, speclines=None, meta=None):
     """labels outside the alias model, judged against the plain list only (no model line): non-integral floats and their
     NumPy / Fraction aliases are labels of their own (1.5 is neither 1 nor 2); `nan` / `inf` (not self-equal / not
     convertible by `int()`) are REFUSED by every entry point with the state unchanged."""
@@ -639,29 +664,39 @@ def odd_label_cases(ctx, r):
         if isinstance(o, str):
             return ('s', o)
         return ('q', o if isinstance(o, fractions.Fraction) else fractions.Fraction(int(o)) if isinstance(o, (int, np.integer)) else fractions.Fraction(float(o)))
+    def emit(line, exp, hist):
+        if lines is not None:
+            lines.append(line); expect.append(exp); speclines.append(None); meta.append(('oddF:' + line.split(' ')[0], tuple(hist)))
+
     for _ in range(ctx.scale(150, 1500)):
         v = Variables(); ref = []; code = ['import fractions', 'import numpy as np', 'from dimod.variables import Variables', 'v = Variables()']
         fl = [x for x in fl0 if not is_np(x)] if r.random() < .5 else [x for x in fl0 if not isinstance(x, tuple)]   # NumPy scalar == tuple: DESIGN D23
+        emit('clear', 'ok ' + state(v, lab_f), ())
         for _ in range(r.randint(1, 8)):
             k = r.choice('+?pxq')
             o = r.choice(fl)
+            mline = None
             if k in '+?':
+                mline = f'append {lab_f(o)} {int(k == "?")}'
                 src = f'v._append({rp(o)}, permissive={k == "?"})'; want = cf(o) not in ref or k == '?'
                 if cf(o) not in ref:
                     ref.append(cf(o))
                 call = lambda: v._append(o, permissive=(k == '?'))  # noqa: E731
             elif k == 'p':
+                mline = 'pop'
                 src = 'v._pop()'; want = bool(ref)
                 if ref:
                     ref.pop()
                 call = lambda: v._pop()  # noqa: E731
             elif k == 'x':
+                mline = f'remove {lab_f(o)}'
                 src = f'v._remove({rp(o)})'; want = cf(o) in ref
                 if want:
                     ref.remove(cf(o))
                 call = lambda: v._remove(o)  # noqa: E731
             else:
                 n = r.choice(fl)
+                mline = f'relabel {lab_f(o)}={lab_f(n)}'
                 src = f'v._relabel({{{rp(o)}: {rp(n)}}})'
                 want = not (cf(n) in ref and cf(n) != cf(o))
                 if want and cf(o) in ref:
@@ -673,6 +708,7 @@ def odd_label_cases(ctx, r):
                 call()
             except (ValueError, IndexError):
                 ok = False
+            emit(mline, ('ok ' if ok else 'err ') + state(v, lab_f), code[4:])
             q = r.choice(fl)
             facts = ([cf(x) for x in v] == ref and len(v) == len(ref) and ok == want and bool(v.count(q)) == (cf(q) in ref) and (q in v) == (cf(q) in ref)
                      and (cf(q) not in ref or v.index(q) == ref.index(cf(q))) and all(v.index(x) == i for i, x in enumerate(v)))
@@ -683,10 +719,12 @@ def odd_label_cases(ctx, r):
                                f'assert _ok == {want} and len(v) == len(L) and all(v.index(x) == i for i, x in enumerate(v)) and bool(v.count({rp(q)})) == {cf(q) in ref}')
                 return
     ctx.tick('non-integral number labels', ctx.scale(150, 1500))
+    if lines is not None:
+        ctx.tick('non-integral number labels: model lines over LabelF.enc')
     # nan / inf: refused, nothing changes
     for bad in (float('nan'), float('inf'), -float('inf'), np.float64('nan'), np.float32('inf')):
         for start in ([], [0, 1], ['a', 1.5, 0]):
-            v = Variables(start); before = v.__reduce__()[2][:3]
+            v = Variables(start); before = core(v)
             for name, call in (('_append', lambda: v._append(bad)), ('_append(permissive)', lambda: v._append(bad, permissive=True)), ('_extend', lambda: v._extend([bad])),
                                ('count', lambda: v.count(bad)), ('in', lambda: bad in v), ('index', lambda: v.index(bad)), ('index(permissive)', lambda: v.index(bad, permissive=True)),
                                ('Variables([x])', lambda: Variables(start + [bad])), ('_remove', lambda: v._remove(bad))):
@@ -695,17 +733,17 @@ def odd_label_cases(ctx, r):
                     call()
                 except (ValueError, OverflowError) as e:
                     raised = type(e).__name__
-                after = v.__reduce__()[2][:3]
+                after = core(v)
                 ctx.case(('nan', name, repr(bad), repr(start)), nontrivial=True)
                 if raised is None or after != before:
                     ctx.fail('property', 'Variables.objects', 'nan / inf label', f'Variables({start!r}).{name}({bad!r}): raised {raised}, state before {before!r} after {after!r}: a label that is not self-equal / not a number with an integer test must be refused without changing anything',
-                             repro=f'import numpy as np\nfrom dimod.variables import Variables\nv = Variables({start!r}); s = v.__reduce__()[2][:3]\ntry:\n    v._append({rp(bad) if is_np(bad) else "float(" + repr(str(bad)) + ")"})\n    raise AssertionError("accepted")\nexcept (ValueError, OverflowError): pass\nassert v.__reduce__()[2][:3] == s')
+                             repro=f'import numpy as np\nfrom dimod.variables import Variables\nv = Variables({start!r}); s = v.__reduce__()[2]\ntry:\n    v._append({rp(bad) if is_np(bad) else "float(" + repr(str(bad)) + ")"})\n    raise AssertionError("accepted")\nexcept (ValueError, OverflowError): pass\nassert v.__reduce__()[2] == s')
                     return
     ctx.tick('nan/inf refused')
     # unhashable objects: never a label (count 0, `in` False, index / _remove ValueError, _append TypeError, _relabel to one ValueError), nothing changes
     for bad in ([1], {1}, {'a': 1}, ([1],)):
         for start in ([], [0, 1], ['a', 5, 0]):
-            v = Variables(start); before = v.__reduce__()[2][:3]
+            v = Variables(start); before = core(v)
             facts = []
             for name, call, want in (('count', lambda: v.count(bad), 0), ('in', lambda: bad in v, False), ('index', lambda: v.index(bad), 'ValueError'),
                                      ('_remove', lambda: v._remove(bad), 'ValueError'), ('_append', lambda: v._append(bad), 'TypeError'),
@@ -715,12 +753,12 @@ def odd_label_cases(ctx, r):
                     got = call()
                 except Exception as e:  # noqa
                     got = type(e).__name__
-                facts.append((name, got, want, v.__reduce__()[2][:3] == before))
+                facts.append((name, got, want, core(v) == before))
             ctx.case(('unhashable', repr(bad), repr(start)), nontrivial=True)
             wrong = [f for f in facts if f[1] != f[2] or not f[3]]
             if wrong:
                 ctx.fail('property', 'Variables.objects', 'unhashable object', f'Variables({start!r}) with {bad!r}: (call, outcome, expected, state unchanged) = {wrong}',
-                         repro=f'from dimod.variables import Variables\nv = Variables({start!r}); s = v.__reduce__()[2][:3]\nassert v.count({bad!r}) == 0 and ({bad!r} in v) is False\ntry:\n    v._append({bad!r})\n    raise AssertionError("accepted")\nexcept TypeError: pass\nassert v.__reduce__()[2][:3] == s')
+                         repro=f'from dimod.variables import Variables\nv = Variables({start!r}); s = v.__reduce__()[2]\nassert v.count({bad!r}) == 0 and ({bad!r} in v) is False\ntry:\n    v._append({bad!r})\n    raise AssertionError("accepted")\nexcept TypeError: pass\nassert v.__reduce__()[2] == s')
                 return
     ctx.tick('unhashable refused')
 
@@ -786,7 +824,7 @@ def method_coverage(ctx, r):
     # the pickle hooks under their Cython names (pickle itself goes through the aliases `__reduce__` / `__setstate__`)
     st = w.__reduce_cython__()[2]
     w2 = Rec(); w2.__setstate_cython__(st)
-    if list(w2) != list(w) or w2.__reduce__()[2][:3] != w.__reduce__()[2][:3]:
+    if list(w2) != list(w) or core(w2) != core(w):
         ctx.fail('property', 'Variables.pickle', '__setstate_cython__(__reduce_cython__ state)', f'state {st!r} set on a fresh object gives {list(w2)!r}, the original is {list(w)!r}',
                  repro="from dimod.variables import Variables\nw = Variables(range(4)); w._append('a')\nw2 = Variables(); w2.__setstate_cython__(w.__reduce_cython__()[2])\nassert list(w2) == list(w)")
     pyx = open(_os.path.join(vm.SRC, 'cyvariables.pyx')).read()
@@ -1014,6 +1052,276 @@ def one_history(ctx, r, nops, lines, expect, speclines, meta, errcls):
                 return
 
 
+# ---------------------------------------------------------------- round 8: the documented auto label after freeing integer labels
+
+def int_aliases(k):
+    """every object that denotes the integer label k (k >= 0)"""
+    out = [k, float(k), np.int64(k), np.int32(k), np.uint8(k), np.float32(k), np.float64(k), np.int8(k), np.uint64(k)]
+    if k in (0, 1):
+        out.append(bool(k))
+    return out
+
+
+def doc_auto(ref):
+    """the documented label of `_append()`: the index of the new variable if available, otherwise the lowest available
+    non-negative integer (written over the plain list, independent of the model)"""
+    n = len(ref)
+    if n not in ref:
+        return n
+    k = 0
+    while k in ref:
+        k += 1
+    return k
+
+
+def autolabel_cases(ctx, r, lines, expect, speclines, meta):
+    """directed-random histories around ONE rule: colliding auto appends (the index label is taken, so the fallback scan runs)
+    interleaved with everything that FREES an integer label -- `_relabel` with the key written as int / float / NumPy integer /
+    NumPy float / bool, `_pop` / `_remove` of a label STORED as such an alias, relabels of a lower index after a higher one
+    (insertion order of the private dicts), swaps, copies / pickles of the object in between (caches travel with the copy).
+    Judged against the plain list + the documented rule; the same history goes to the object-level model (`khist3`)."""
+    n_hist = ctx.scale(500, 8000)
+    strs = ['a', 'b', 'c', 'x', 'y', 'z', 'u', 'w', 'p', 'q', 's0', 's1', 's2', 's3', 's4', 's5']
+
+    def emit(line, exp, what):
+        lines.append(line); expect.append(exp); speclines.append(None); meta.append((what, (line,)))
+
+    def cn(o):
+        return o if isinstance(o, str) else int(o)
+
+    for _ in range(n_hist):
+        v = Variables(); ref = []; toks = []; flags = ''
+        code = ['import copy, pickle', 'import numpy as np', 'from dimod.variables import Variables', 'v = Variables()']
+        fresh = iter(r.sample(strs, len(strs)))
+        aliased = False    # an integer label was freed through a non-int object
+        # seed labels: small integers (stored through a random alias) and strings, in an order that is not the range
+        n0 = r.randint(2, 6)
+        seedl = r.sample(range(0, n0 + 3), r.randint(1, n0)) + [next(fresh) for _ in range(r.randint(0, 2))]
+        r.shuffle(seedl)
+        plan = [('+', (r.choice(int_aliases(x)) if r.random() < .5 else x) if isinstance(x, int) else x) for x in seedl]
+        nsteps = r.randint(3, 12)
+        while plan or nsteps > 0:
+            if plan:
+                k, o = plan.pop(0)
+            else:
+                nsteps -= 1
+                k = r.choice(['~', '~', '~', '~', 'B', 'B', 'F', 'F', 'F', 'X', 'X', 'p', 'p', 'W', 'C', 'K', 'r'])
+                o = None
+            ints = [x for x in ref if isinstance(x, int)]
+            newv = False; check_ret = None
+            if k == '+':
+                toks.append('+' + pk(o)); src = f'v._append({rp(o)})'; want = cn(o) not in ref
+                if want:
+                    ref.append(cn(o))
+                call = lambda: v._append(o)  # noqa: E731
+            elif k == '~':
+                ctx.tick('branch autoLabel: least free integer (round 8)' if len(ref) in ref else 'branch autoLabel: the index (round 8)')
+                toks.append('+~'); src = 'v._append()'; want = True; check_ret = doc_auto(ref); ref.append(check_ret)
+                call = lambda: v._append()  # noqa: E731
+            elif k == 'B':
+                # block the next index (or the one after): the next auto append collides
+                x = len(ref) + r.choice([0, 1, 1, 2]); o = r.choice(int_aliases(x)) if r.random() < .4 else x
+                toks.append('?' + pk(o)); src = f'v._append({rp(o)}, permissive=True)'; want = True
+                if x not in ref:
+                    ref.append(x)
+                call = lambda: v._append(o, permissive=True)  # noqa: E731
+            elif k == 'F' and ints:
+                # free an integer label by relabelling it away (small ones first: they are the ones a scan from 0 meets)
+                x = min(r.sample(ints, min(len(ints), 2))); o = r.choice(int_aliases(x)) if r.random() < .7 else x
+                tgt = r.choice([None, None, 20 + len(toks), float(30 + len(toks))])
+                if tgt is None:
+                    tgt = next(fresh, None) or ('t%d' % len(toks))
+                aliased |= type(o) is not int
+                toks.append(f'R:{pk(o)}>{pk(tgt)}'); src = f'v._relabel({{{rp(o)}: {rp(tgt)}}})'; want = cn(tgt) not in ref or cn(tgt) == x
+                if want:
+                    ref[ref.index(x)] = cn(tgt)
+                mp = {o: tgt}
+                call = lambda: v._relabel(mp)  # noqa: E731
+            elif k == 'X' and ints:
+                x = min(r.sample(ints, min(len(ints), 2))); o = r.choice(int_aliases(x)) if r.random() < .7 else x
+                aliased |= type(o) is not int or type(v[ref.index(x)]) is not int
+                toks.append('x' + pk(o)); src = f'v._remove({rp(o)})'; want = True; ref.remove(x)
+                call = lambda: v._remove(o)  # noqa: E731
+            elif k == 'p':
+                toks.append('p'); src = 'v._pop()'; want = bool(ref)
+                if ref:
+                    aliased |= type(v[len(ref) - 1]) is not int and isinstance(ref[-1], int)
+                    ref.pop()
+                call = lambda: v._pop()  # noqa: E731
+            elif k == 'W' and len(ref) >= 2:
+                a, b = r.sample(ref, 2)
+                oa = r.choice(int_aliases(a)) if isinstance(a, int) and a >= 0 else a
+                ob = r.choice(int_aliases(b)) if isinstance(b, int) and b >= 0 else b
+                mp = {oa: b, ob: a}
+                toks.append(f'R:{pk(oa)}>{pk(b)}|{pk(ob)}>{pk(a)}'); src = f'v._relabel({{{rp(oa)}: {rp(b)}, {rp(ob)}: {rp(a)}}})'; want = True
+                ia, ib = ref.index(a), ref.index(b); ref[ia], ref[ib] = b, a
+                call = lambda: v._relabel(mp)  # noqa: E731
+            elif k == 'C':
+                how = r.randrange(4)
+                toks.append('D' if how == 3 else 'C')
+                src = ['v = v.copy()', 'v = copy.copy(v)', 'v = Variables(v)', 'v = copy.deepcopy(v)'][how]; want = True; newv = True
+                call = [lambda: v.copy(), lambda: copy.copy(v), lambda: Variables(v), lambda: copy.deepcopy(v)][how]
+            elif k == 'K':
+                toks.append('K'); src = 'v = pickle.loads(pickle.dumps(v))'; want = True; newv = True
+                call = lambda: pickle.loads(pickle.dumps(v))  # noqa: E731
+            elif k == 'r' and r.random() < .3:
+                toks.append('r'); src = 'v._relabel_as_integers()'; ref = list(range(len(ref))); want = True
+                call = lambda: v._relabel_as_integers()  # noqa: E731
+            else:
+                continue
+            code.append(f'try: {src}\nexcept (ValueError, IndexError): pass')
+            ok = True; res = None
+            try:
+                res = call()
+            except (ValueError, IndexError):
+                ok = False
+            if ok and newv:
+                v = res
+            flags += str(int(ok))
+            ctx.tick('auto8 ' + {'+': 'append', '~': 'auto', 'B': 'block next index', 'F': 'free by relabel', 'X': 'free by remove', 'p': 'pop', 'W': 'swap', 'C': 'copy', 'K': 'pickle', 'r': 'relabel_ints'}[k])
+            body = '\n'.join(code[:-1]) + f'\n_ok = True\ntry: _ret = {src.replace("v = ", "")}\nexcept (ValueError, IndexError): _ok = False\n'
+            if check_ret is not None and ok and (res != check_ret or type(res) is not int):
+                ctx.fail('property', 'Variables._append', 'auto label after integer labels were freed' + (' through numeric aliases' if aliased else ''),
+                         f'after {code[4:-1]} the labels are {ref[:-1]!r}; `_append()` returned {res!r}, documented: {check_ret!r} (index {len(ref) - 1} if available, otherwise the lowest available non-negative integer)',
+                         repro=body + f'assert _ok and _ret == {check_ret!r} and type(_ret) is int, _ret', detail=dict(history=code[4:], labels_before=repr(ref[:-1]), returned=repr(res), documented=check_ret))
+                break
+            if ok != want or [cn(x) for x in v] != ref or len(v) != len(ref) or any(v.index(x) != i for i, x in enumerate(ref)):
+                ctx.fail('property', 'Variables.objects', 'history of auto appends and freed integer labels', f'after {code[4:]}: list(v)={list(v)!r}, last call raised={not ok}; labels should be {ref!r}, list accepts the last call={want}',
+                         repro=body + f'assert _ok == {want} and list(v) == {ref!r} and all(v.index(x) == i for i, x in enumerate({ref!r}))', detail=dict(history=code[4:]))
+                break
+        else:
+            ctx.case(('auto8', tuple(toks)), nontrivial=len(v) > 0, sample=dict(history=code[4:]) if len(toks) == 9 else None)
+            emit('khist3 ' + (','.join(toks) or '-'), f"ok {flags} {state(v)} {','.join(pk(x) for x in v)}", 'auto8:khist3')
+            continue
+        break
+    ctx.tick('auto-label histories (round 8)', n_hist)
+
+
+def odd_label_histories(ctx, r, lines, expect, speclines, meta):
+    """round 8: non-integral numbers (and tuples of them) through the WHOLE alphabet of `OpF2` -- explicit / auto appends, `_extend`
+    (list / iterator), pop, remove, one-pair / swapping relabels, relabel-as-integers, clear, copy four ways, pickle, slicing --
+    judged against the plain list (exact `Fraction` values) and sent to the compiled model with the labels encoded by `enc_f`
+    (the Lean side of the same map is `LabelF.enc`; theorem `labelF_history2_bijection`)."""
+    import fractions
+    fl0 = [0.5, 1.5, 2.5, -1.5, np.float64(1.5), np.float32(0.5), fractions.Fraction(3, 2), fractions.Fraction(5, 2), 0.25, 1, 2, 3, 1.0, 2.0, 'a', 'b', 0, (1.5, 'a'), (1.5,), (1, 0.5)]
+
+    def cf(o):
+        if isinstance(o, tuple):
+            return ('t',) + tuple(cf(x) for x in o)
+        if isinstance(o, str):
+            return ('s', o)
+        return ('q', o if isinstance(o, fractions.Fraction) else fractions.Fraction(int(o)) if isinstance(o, (int, np.integer)) else fractions.Fraction(float(o)))
+
+    def auto(ref):
+        n = len(ref)
+        if ('q', fractions.Fraction(n)) in ref:
+            n = 0
+            while ('q', fractions.Fraction(n)) in ref:
+                n += 1
+        return ('q', fractions.Fraction(n))
+
+    def app(ref, o, perm):
+        """list semantics of one append: (accepted, new list)"""
+        if o is None:
+            return True, ref + [auto(ref)]
+        if cf(o) in ref:
+            return perm, ref
+        return True, ref + [cf(o)]
+
+    n_hist = ctx.scale(200, 3000)
+    for _ in range(n_hist):
+        v = Variables(); ref = []; code = ['import copy, fractions, pickle', 'import numpy as np', 'from dimod.variables import Variables', 'v = Variables()']
+        fl = [x for x in fl0 if not is_np(x)] if r.random() < .5 else [x for x in fl0 if not isinstance(x, tuple)]   # NumPy scalar == tuple: DESIGN D23
+        lines.append('clear'); expect.append('ok ' + state(v, lab_f)); speclines.append(None); meta.append(('oddF2:clear', ()))
+        for _ in range(r.randint(2, 10)):
+            k = r.choice(['+', '+', '?', '~', '~', 'E', 'E', 'p', 'x', 'q', 'q', 'W', 'r', 'c', 'C', 'K', 'S'] if ref else ['+', '?', '~', 'E', 'p', 'S', 'C'])
+            o = r.choice(fl); newv = False
+            if k in '+?':
+                mline = f'append {lab_f(o)} {int(k == "?")}'; src = f'v._append({rp(o)}, permissive={k == "?"})'
+                want, ref2 = app(ref, o, k == '?')
+                call = lambda: v._append(o, permissive=(k == '?'))  # noqa: E731
+            elif k == '~':
+                mline = 'append - 0'; src = 'v._append()'; want, ref2 = app(ref, None, False)
+                call = lambda: v._append()  # noqa: E731
+            elif k == 'E':
+                items = [None if r.random() < .2 else r.choice(fl) for _ in range(r.randint(0, 4))]; perm = r.random() < .5; it = r.random() < .4
+                mline = f'extend {int(perm)} ' + (','.join('~' if x is None else lab_f(x) for x in items) or '-')
+                src = f'v._extend({"iter(" if it else ""}{rp(items)}{")" if it else ""}, permissive={perm})'
+                want, ref2 = True, ref
+                for x in items:
+                    okx, ref2 = app(ref2, x, perm)
+                    if not okx:
+                        want = False     # the prefix stays (an _extend is a fold of _append)
+                        break
+                call = lambda: v._extend(iter(items) if it else items, permissive=perm)  # noqa: E731
+            elif k == 'p':
+                mline = 'pop'; src = 'v._pop()'; want = bool(ref); ref2 = ref[:-1]
+                call = lambda: v._pop()  # noqa: E731
+            elif k == 'x':
+                o = r.choice([x for x in fl if cf(x) in ref] or fl) if r.random() < .7 else o
+                mline = f'remove {lab_f(o)}'; src = f'v._remove({rp(o)})'; want = cf(o) in ref; ref2 = [c for c in ref if c != cf(o)]
+                call = lambda: v._remove(o)  # noqa: E731
+            elif k == 'q':
+                o = r.choice([x for x in fl if cf(x) in ref] or fl) if r.random() < .7 else o
+                n = r.choice(fl)
+                mline = f'relabel {lab_f(o)}={lab_f(n)}'; src = f'v._relabel({{{rp(o)}: {rp(n)}}})'
+                want = not (cf(n) in ref and cf(n) != cf(o)); ref2 = [cf(n) if c == cf(o) else c for c in ref] if want else ref
+                mp = {o: n}
+                call = lambda: v._relabel(mp)  # noqa: E731
+            elif k == 'W':
+                cur = [x for x in fl if cf(x) in ref]
+                a = r.choice(cur) if cur else o
+                b = r.choice([x for x in cur if cf(x) != cf(a)] or [a])
+                if cf(a) == cf(b):
+                    continue
+                mline = f'relabel {lab_f(a)}={lab_f(b)},{lab_f(b)}={lab_f(a)}'; src = f'v._relabel({{{rp(a)}: {rp(b)}, {rp(b)}: {rp(a)}}})'
+                want = True; ref2 = [cf(b) if c == cf(a) else cf(a) if c == cf(b) else c for c in ref]
+                mp = {a: b, b: a}
+                call = lambda: v._relabel(mp)  # noqa: E731
+            elif k == 'r':
+                mline = 'relabelints'; src = 'v._relabel_as_integers()'; want = True; ref2 = [('q', fractions.Fraction(i)) for i in range(len(ref))]
+                call = lambda: v._relabel_as_integers()  # noqa: E731
+            elif k == 'c':
+                if r.random() < .6:
+                    continue
+                mline = 'clear'; src = 'v._clear()'; want = True; ref2 = []
+                call = lambda: v._clear()  # noqa: E731
+            elif k == 'C':
+                how = r.randrange(4); mline = 'copy'; want = True; ref2 = ref; newv = True
+                src = ['v = v.copy()', 'v = copy.copy(v)', 'v = Variables(v)', 'v = copy.deepcopy(v)'][how]
+                call = [lambda: v.copy(), lambda: copy.copy(v), lambda: Variables(v), lambda: copy.deepcopy(v)][how]
+            elif k == 'K':
+                mline = 'pickle'; src = 'v = pickle.loads(pickle.dumps(v))'; want = True; ref2 = ref; newv = True
+                call = lambda: pickle.loads(pickle.dumps(v))  # noqa: E731
+            else:
+                n0 = len(ref)
+                sl = slice(r.choice([None, None, -n0 - 1, -2, -1, 0, 1, 2, n0]), r.choice([None, None, -n0 - 1, -2, -1, 0, 1, 2, n0, n0 + 2]), r.choice([None, 1, 2, -1, -1, -2, 0]))
+                mline = 'slice ' + ' '.join('-' if a is None else str(a) for a in (sl.start, sl.stop, sl.step)); src = f'v = v[{sl!r}]'
+                want = sl.step != 0; ref2 = ref[sl] if want else ref; newv = True
+                call = lambda: v[sl]  # noqa: E731
+            code.append(f'try: {src}\nexcept (ValueError, IndexError): pass')
+            ok = True
+            try:
+                res = call()
+                if newv:
+                    v = res
+            except (ValueError, IndexError):
+                ok = False
+            ref = ref2
+            ctx.tick('oddF2 ' + mline.split(' ')[0] + ('' if ok else ' (raises)'))
+            lines.append(mline); expect.append(('ok ' if ok else 'err ') + state(v, lab_f)); speclines.append(None); meta.append(('oddF2:' + mline.split(' ')[0], tuple(code[4:])))
+            q = r.choice(fl)
+            facts = ([cf(x) for x in v] == ref and len(v) == len(ref) and ok == want and bool(v.count(q)) == (cf(q) in ref) and (q in v) == (cf(q) in ref)
+                     and (cf(q) not in ref or v.index(q) == ref.index(cf(q))) and all(v.index(x) == i for i, x in enumerate(v)))
+            ctx.case(('odd2', tuple(code[4:])), nontrivial=bool(ref))
+            if not facts:
+                ctx.fail('property', 'Variables.objects', 'non-integral number labels (whole alphabet)', f'after {code[4:]}: list(v)={list(v)!r} (last call raised={not ok}), count({q!r})={v.count(q)}; the list of labels is {[c[1:] for c in ref]!r}, accepts the last call={want}',
+                         repro='\n'.join(code) + f'\nL = {[str(c[1]) if c[0] == "q" else repr(c) for c in ref]!r}\n'
+                               f'assert len(v) == len(L) and all(v.index(x) == i for i, x in enumerate(v)) and bool(v.count({rp(q)})) == {cf(q) in ref}')
+                return
+    ctx.tick('non-integral number labels, whole alphabet (round 8)', n_hist)
+
+
 def sweep(ctx, lines, expect, speclines, meta):
     """thorough tier: ALL histories of exactly 3 operations over a 5-label alphabet and 48 op templates
     (every shorter history is a prefix of one of them)"""
@@ -1076,7 +1384,9 @@ def run(ctx):
     slice_table(ctx, lines, expect, speclines, meta, errcls)
     alias_cases(ctx, r, lines, expect, speclines, meta)
     object_cases(ctx, r, lines, expect, speclines, meta)
-    odd_label_cases(ctx, r)
+    autolabel_cases(ctx, r, lines, expect, speclines, meta)
+    odd_label_cases(ctx, r, lines, expect, speclines, meta)
+    odd_label_histories(ctx, r, lines, expect, speclines, meta)
     method_coverage(ctx, r)
     got = run_driver('varsdriver', lines)
     ctx.corr_lines += len(lines)
